@@ -514,6 +514,24 @@ func (c14Checker) Run(tp *Tapes, opt RunOpt) *Outcome {
 					viol("variants_disagree", "after 130 failed writes bytes", "after many executions whose writer failed the template renders something else", refOut, obs(rs))
 				}
 			}
+			// ... and neither must many executions that died at a call-back (inside includes,
+			// macros, blocks, wherever the program has them)
+			if tp.Fault.Draw(12) == 1 && refOut != "" {
+				for n := 0; n < 130; n++ {
+					on(eps[n%len(eps)], []FaultSpec{{Site: KCallback, Task: -1, Occ: tp.Fault.Draw(K), Fault: FExecErr, Disk: -1}})
+				}
+				lastCase = &c14Case{Entry: "same set and template after 130 executions that failed at a call-back"}
+				var rs []*ExecResult
+				for _, ep := range eps {
+					rs = append(rs, on(ep, nil))
+				}
+				out.probe("endurance_exec_failures")
+				if agree(rs, "after 130 failed executions") && !rs[0].Failed() && visible(rs[0]) != refOut {
+					viol("variants_disagree", "after 130 failed executions bytes", "after many executions that failed the template renders something else", refOut, obs(rs))
+				} else if rs[0].Failed() && !cd.MaybeFail && !cd.BadKey && !cd.Clash {
+					viol("variants_disagree", "after 130 failed executions fail/succeed", "after many executions that failed a fault-free execution fails", refOut, obs(rs))
+				}
+			}
 			// the same template with a nil Context, before and after the caller changes a global
 			onNil := func(ep int) *ExecResult {
 				w.Plan = nil
